@@ -129,6 +129,7 @@ class SimFile(object):
     def __init__(self, disk, path, mode):
         self.disk = disk
         self.path = path
+        self.name = path
         self.mode = mode
         self.pos = 0
         self.closed = False
@@ -283,6 +284,14 @@ class Seam(object):
 
         tt.open = self._open
         tt.os = _OS()
+        # the storage module has no file opening of its own today; should it grow one, it
+        # must land on the simulated disk too
+        import traph.storage.file as tsf
+
+        self._tsf = tsf
+        self._tsf_had_open = "open" in tsf.__dict__
+        self._tsf_old_open = tsf.__dict__.get("open")
+        tsf.open = self._open
         self.installed = True
 
     def uninstall(self):
@@ -294,6 +303,10 @@ class Seam(object):
         else:
             del tt.open
         tt.os = self._old_os
+        if self._tsf_had_open:
+            self._tsf.open = self._tsf_old_open
+        else:
+            del self._tsf.open
         self.installed = False
 
     def use(self, disk):
